@@ -220,7 +220,7 @@ def sweep(budget_s=90, what="roundtrip"):
         if len(pr) == 1 and pr[0].startswith("full-form serialisation of a built-in module raised BuiltinModuleError"):
             sig = "full-dump-builtin"
         bad.append({"module": desc, "inspected": False, "resolved": False, "problems": pr, "signature": sig, "root_cause": root_cause(pr, False)})
-    n += 6
+    n += 8
     return {"cases": n, "bad": bad}
 
 
@@ -350,6 +350,38 @@ def special_cases(what):
                         sys.modules.pop(nm, None)
                 if pr:
                     out.append((f"command-line dump (full={full})", pr))
+        # a package with re-export chains, aliases resolved (with and without): alias targets are the ones written in the source, before and after reload
+        with tempfile.TemporaryDirectory() as tmp:
+            pk = Path(tmp) / "c8chain"
+            (pk / "sub").mkdir(parents=True)
+            (pk / "__init__.py").write_text("from c8chain.api import Thing, helper as public_helper\nfrom c8chain.sub import deep\n")
+            (pk / "api.py").write_text("from c8chain._impl import Thing, helper\n")
+            (pk / "_impl.py").write_text("class Thing:\n    def m(self): ...\ndef helper(): ...\n")
+            (pk / "sub" / "__init__.py").write_text("from c8chain.api import helper as deep\n")
+            written = {"Thing": "c8chain.api.Thing", "public_helper": "c8chain.api.helper", "deep": "c8chain.sub.deep"}
+            for resolve in (False, True):
+                pr = []
+                try:
+                    ld = GriffeLoader(search_paths=[tmp], docstring_parser=None)
+                    mod = ld.load("c8chain")
+                    if resolve:
+                        ld.resolve_aliases(implicit=True, external=False)
+                    for full in (False, True):
+                        js = mod.as_json(full=full, sort_keys=True)
+                        dumped = json.loads(js)["members"]
+                        dumped = dumped if isinstance(dumped, dict) else {m_["name"]: m_ for m_ in dumped}
+                        for nm, tp in written.items():
+                            if dumped[nm].get("target_path") != tp:
+                                pr.append(f"re-export chain (resolved={resolve}, full={full}): dump gives alias {nm} the target {dumped[nm].get('target_path')!r}, the source says {tp!r}")
+                        back = Module.from_json(js)
+                        for path, a, b in tree_diff(tree_summary(mod), tree_summary(back)):
+                            pr.append(f"re-export chain (resolved={resolve}, full={full}): reloaded tree differs at {path}: {str(a)[:100]} vs {str(b)[:100]}")
+                        if not full and back.as_json(sort_keys=True) != js:
+                            pr.append(f"re-export chain (resolved={resolve}): reloaded tree does not serialise to the identical JSON (minimal)")
+                except BaseException as e:  # noqa: BLE001
+                    pr.append(f"re-export chain (resolved={resolve}): round trip raised {type(e).__name__}: {str(e)[:80]}")
+                if pr:
+                    out.append((f"re-export chain (resolved={resolve})", pr))
         # objects built directly (what extensions and the inspector produce): empty-string values are values, not absences
         from _griffe.models import Attribute, Function, Parameter, Parameters
         from _griffe.enumerations import ParameterKind
